@@ -54,6 +54,7 @@ pub struct SimFsInner {
     pub delivered: BTreeMap<String, Vec<u8>>,
     pub latency_seed: u64,
     pub persistent_failures: u64,
+    pub path_bytes: usize,
 }
 
 #[derive(Debug)]
@@ -150,6 +151,12 @@ pub fn apply_content_fault(orig: &[u8], cf: &ContentFault) -> Vec<u8> {
     }
 }
 
+/// Fs operations one job may make (fault-free jobs of the generators make a few hundred; a job that legitimately needs more ends as `inconclusive`, never as a violation: the verdict is drawn only against a reference that stayed below)
+pub const FS_OPS_FUEL: usize = 50_000;
+/// ... and the total length of the paths it may ask about (a search that descends without end asks
+/// about ever longer paths: this ends it after a few thousand questions instead of 50 000 long ones)
+pub const FS_PATH_BYTES_FUEL: usize = 4 << 20;
+
 impl SimFs {
     pub fn new(files: &[(String, Vec<u8>)], extra_dirs: &[String], cwd: &str, canon: CanonMode, faults: Vec<Fault>, latency_seed: u64) -> Self {
         let mut fm = BTreeMap::new();
@@ -184,7 +191,8 @@ impl SimFs {
                 history: vec![],
                 delivered: BTreeMap::new(),
                 latency_seed,
-                persistent_failures: 0,
+    persistent_failures: 0,
+                path_bytes: 0,
             }),
         }
     }
@@ -195,6 +203,13 @@ impl SimFs {
         let mut g = self.inner.borrow_mut();
         let k = g.k;
         g.k += 1;
+        g.path_bytes += path.as_os_str().len();
+        if k == FS_OPS_FUEL || g.path_bytes > FS_PATH_BYTES_FUEL {
+            // a search that keeps asking (e.g. walks name/index/index/... for as long as is_dir says
+            // yes): end it deterministically instead of waiting for the stack or the wall clock
+            drop(g);
+            std::panic::panic_any(grass_compiler::verif::FuelExhausted("fs-ops"));
+        }
         let pstr = path.to_string_lossy().into_owned();
         let norm = normalize(&g.cwd, &pstr);
         let mut err = None;
@@ -257,6 +272,31 @@ impl SimFs {
         self.inner.borrow_mut().history.push(FsEvent { k, op, path, norm, result, faulted });
     }
 
+    /// true (and marked as fired) if the job carries a StatLies fault of this mode
+    fn lie(&self, mode: &str) -> bool {
+        let mut g = self.inner.borrow_mut();
+        for i in 0..g.faults.len() {
+            if matches!(&g.faults[i], Fault::StatLies { mode: m } if m == mode) {
+                g.fired[i] = true;
+                return true;
+            }
+        }
+        false
+    }
+
+    /// the mode of a CanonOdd fault, if the job carries one (marked as fired)
+    fn canon_odd(&self) -> Option<String> {
+        let mut g = self.inner.borrow_mut();
+        for i in 0..g.faults.len() {
+            if let Fault::CanonOdd { mode } = &g.faults[i] {
+                let m = mode.clone();
+                g.fired[i] = true;
+                return Some(m);
+            }
+        }
+        None
+    }
+
     pub fn take_history(&self) -> Vec<FsEvent> {
         std::mem::take(&mut self.inner.borrow_mut().history)
     }
@@ -266,7 +306,10 @@ impl grass_compiler::Fs for SimFs {
     fn is_dir(&self, path: &Path) -> bool {
         let (k, p, n, _e, lat) = self.begin(FsOp::IsDir, path);
         sched::point(sched::PointKind::Fs, lat);
-        let r = self.inner.borrow().dirs.contains(&n);
+        let mut r = self.inner.borrow().dirs.contains(&n);
+        if !r && self.lie("dir_always") {
+            r = true;
+        }
         self.record(k, FsOp::IsDir, p, n, r.to_string(), false);
         r
     }
@@ -274,7 +317,13 @@ impl grass_compiler::Fs for SimFs {
     fn is_file(&self, path: &Path) -> bool {
         let (k, p, n, _e, lat) = self.begin(FsOp::IsFile, path);
         sched::point(sched::PointKind::Fs, lat);
-        let r = self.inner.borrow().files.contains_key(&n);
+        let mut r = self.inner.borrow().files.contains_key(&n);
+        if !r && self.lie("file_always") {
+            r = true;
+        }
+        if !r && self.inner.borrow().dirs.contains(&n) && self.lie("dir_is_file") {
+            r = true;
+        }
         self.record(k, FsOp::IsFile, p, n, r.to_string(), false);
         r
     }
@@ -345,6 +394,33 @@ impl grass_compiler::Fs for SimFs {
             }
         };
         drop(g);
+        let res = match (res, self.canon_odd()) {
+            (Ok(pb), Some(mode)) => {
+                use std::os::unix::ffi::{OsStrExt, OsStringExt};
+                let b = pb.as_os_str().as_bytes().to_vec();
+                Ok(match mode.as_str() {
+                    "relative" => PathBuf::from(std::ffi::OsString::from_vec(b.iter().copied().skip_while(|c| *c == b'/').collect())),
+                    "empty" => PathBuf::new(),
+                    "fresh" => {
+                        // an equivalent spelling that is new on every call: k is the op index
+                        let mut v = b.clone();
+                        let cut = v.iter().rposition(|c| *c == b'/').map(|i| i + 1).unwrap_or(0);
+                        let tail = v.split_off(cut);
+                        for _ in 0..(k % 7) + 1 {
+                            v.extend_from_slice(b"./");
+                        }
+                        v.extend_from_slice(&tail);
+                        PathBuf::from(std::ffi::OsString::from_vec(v))
+                    }
+                    _ => {
+                        let mut v = b.clone();
+                        v.push(0xff);
+                        PathBuf::from(std::ffi::OsString::from_vec(v))
+                    }
+                })
+            }
+            (r, _) => r,
+        };
         let rs = match &res {
             Ok(pb) => format!("ok:{}", pb.to_string_lossy()),
             Err(_) => "err:NotFound".to_string(),
